@@ -210,7 +210,7 @@ def model_case(sc, subset, fixed=FIXED, efix=EFIX):
             p += ["C", hx(b.get("e", 0.0))]
         g = b.get("grid")
         p += (["S", hx(g["lo"]), hx(g["w"]), str(len(g["vals"]))] + [hx(x) for x in g["vals"]]) if g else ["N"]
-    evs = [ev for ev in sc["events"] if ev[0] in ("S", "R") or (ev[0] == "X" and ev[1] in subset)]
+    evs = [ev for ev in sc["events"] if ev[0] in ("S", "R") or (ev[0] in ("X", "Y") and ev[1] in subset)]
     p.append(str(len(evs)))
     for ev in evs:
         if ev[0] in ("S", "R"):
@@ -222,7 +222,7 @@ def model_case(sc, subset, fixed=FIXED, efix=EFIX):
                     for a, g in c["grads"]:
                         p += [str(a), hx(g[0]), hx(g[1]), hx(g[2])]
         else:
-            p += ["X", str(ev[1]), "1" if ev[2] else "0"]
+            p += [ev[0], str(ev[1]), "1" if ev[2] else "0"]
     return " ".join(p)
 
 
@@ -257,7 +257,7 @@ def parse_model_line(line, natoms):
                 f = t.split(",")
                 o["B"].append({"act": int(f[0]), "rc": int(f[1]), "awake": int(f[2]), "E": hf(f[3]),
                                "F": [] if f[4] == "-" else [hf(x) for x in f[4].split(":")],
-                               "REF": None if f[5] == "-" else hf(f[5])})
+                               "REF": None if f[5] == "-" else hf(f[5]), "apply": int(f[6]) if len(f) > 6 else None})
         if d["A"] != "-":
             for t in d["A"].split("|"):
                 o["A"].append([hf(x) for x in t.split(",")])
@@ -558,8 +558,8 @@ def compare_model(run, sc, tag, subset, msteps, isteps):
             if iv["act"] and not close(mv["x"], iv["x"]):
                 run.mismatch("pipeline:var-value", dict(where, var=i), iv["x"], mv["x"])
         for q, (mb, ib) in enumerate(zip(m["B"], im["B"])):
-            if ib["apply"] != (0 if sc["biases"][subset[q]]["kind"] in ("G", "F") else 1):
-                run.mismatch("pipeline:bias-apply", dict(where, bias=subset[q]), ib["apply"], "per kind")
+            if mb.get("apply") is not None and ib["apply"] != mb["apply"]:
+                run.mismatch("pipeline:bias-apply", dict(where, bias=subset[q]), ib["apply"], mb["apply"])
             for key in ("act", "rc", "awake"):
                 if mb[key] != ib[key]:
                     run.mismatch("pipeline:bias-deps", dict(where, bias=subset[q], field=key), ib[key], mb[key])
@@ -1124,6 +1124,7 @@ def toggle_scenario(r, k):
         b["tsf"] = r.choice([1, 1, 1, 2, 3])     # script-switched biases with factor > 1: the known finding is left to the mix family
     ev = []
     deleted = set()
+    with_delete = r.random() < 0.4        # without deletions the scenario is also compared with the model
     for e in sc["events"]:
         if e[0] == "X":
             continue
@@ -1135,7 +1136,7 @@ def toggle_scenario(r, k):
                     ev.append(("Y", j, r.random() < 0.5))
                 elif m < 0.8 and sc["biases"][j]["tsf"] == 1:
                     ev.append(("X", j, r.random() < 0.5))
-                elif m < 0.9 and len(deleted) + 1 < nb:
+                elif m < 0.9 and len(deleted) + 1 < nb and with_delete:
                     ev.append(("D", j))
                     deleted.add(j)
         ev.append(e)
@@ -1221,7 +1222,8 @@ def run_batch(unit, model, scs, d):
         for t, sub in subsets.items():
             tag = "%d:%s" % (sc["id"], t)
             L += scenario_lines(sc, sub, tag)
-            if all(sc["biases"][j]["kind"] not in ("F", "FA") for j in sub) and sc["family"] not in ("ext", "scripted", "vector", "toggle") and t != "P" and not t.startswith("N"):
+            if all(sc["biases"][j]["kind"] not in ("F", "FA") for j in sub) and sc["family"] not in ("ext", "scripted", "vector") and t != "P" and not t.startswith("N") \
+               and not any(ev[0] == "D" for ev in sc["events"]):
                 M.append(model_case(sc, sub))
                 keys.append(tag)
     for sc in scs:
